@@ -58,6 +58,8 @@ func c19Progs() []c19Prog {
 		// a background job earlier in the same frame must not shield the rest from the interrupt
 		{"after-background-job", "nop &; mark 1; mark 2; mark 3", 3, 1, 0, false},
 		{"background-job-in-closure", "{ nop &; mark 1; mark 2 }; mark 3", 3, 1, 0, false},
+		// a background job that outlives the output capture it was started in
+		{"background-job-in-output-capture", "var x = [({ mark b; put v } &)]; mark a", 2, 2, 0, false},
 		{"sleep-after-background-job", "nop &; mark 1; sleep 1000; mark 2", 2, 1, 0, true},
 	}
 }
@@ -104,6 +106,13 @@ func c19AllInterrupted(s string) bool {
 
 func c19Oracle(p c19Prog) func(r *vsched.Result) (string, string) {
 	return func(r *vsched.Result) (string, string) {
+		if r.Panics > 0 && p.name == "background-job-in-output-capture" {
+			for _, l := range r.Log {
+				if strings.HasPrefix(l, "PANIC") && strings.Contains(l, "send on closed channel") {
+					return "panic:background-job-writes-to-the-closed-port-of-an-output-capture", fmt.Sprintf("program %q: %s", p.code, l)
+				}
+			}
+		}
 		if k, m := vsBasic(r); k != "" {
 			return k, m
 		}
@@ -174,7 +183,7 @@ func TestVerifC19(t *testing.T) {
 		return
 	}
 	vk.Run(t, "C19", "exploration", func(c *vk.Ctx) {
-		c.Rule(fmt.Sprintf("19 programs evaluated by the real Evaler with an interrupter goroutine whose only step is cancelling the Interrupts context, each in two scenarios: the interrupter as an ordinary goroutine (default: interrupt at the first moment the evaluation blocks) and as a low-priority actor (default: no interrupt until nothing else can run; an interrupt at any given scheduling point costs exactly one deviation, so bound b covers every interrupt position combined with b-1 further deviations); nothing may be logged by code of the evaluation after Eval has returned (five programs run commands that cannot be interrupted once started); the scheduler places the interrupt at every scheduling point (fault point = every synchronisation point) and explores every schedule with <=%d departures from the default goroutine; class = distinct (program, observation log, blocking profile)", cfg.Bound))
+		c.Rule(fmt.Sprintf("20 programs evaluated by the real Evaler with an interrupter goroutine whose only step is cancelling the Interrupts context, each in two scenarios: the interrupter as an ordinary goroutine (default: interrupt at the first moment the evaluation blocks) and as a low-priority actor (default: no interrupt until nothing else can run; an interrupt at any given scheduling point costs exactly one deviation, so bound b covers every interrupt position combined with b-1 further deviations); nothing may be logged by code of the evaluation after Eval has returned (five programs run commands that cannot be interrupted once started); the scheduler places the interrupt at every scheduling point (fault point = every synchronisation point) and explores every schedule with <=%d departures from the default goroutine; class = distinct (program, observation log, blocking profile)", cfg.Bound))
 		c.Assume("interrupt delivery is modelled as context cancellation (what the signal handler does); pkg/eval rewritten for the controlled scheduler; `sleep` uses a timer that never fires, so only the interrupt ends it")
 		vshard.Run(c, c19Scenarios(), cfg)
 	})
